@@ -36,7 +36,7 @@ Proof. induction n as [|n IH]; intros lo H; cbn [zsum]; [lra|]. rewrite (H lo) b
 
 (* ---- (i) r_q_cost_poisson equals its definition ---- *)
 Lemma acc_loop_sum g : forall n acc y, acc_loop g acc y n == acc + zsum g y n.
-Proof. induction n as [|n IH]; intros acc y; cbn [acc_loop zsum]; [lra|]. rewrite IH. lra. Qed.
+Proof. induction n as [|n IH]; intros acc y; cbn [acc_loop zsum]; [lra|]. rewrite IH, Qred_correct. lra. Qed.
 
 Theorem rq_poisson_cost_def g K lam r n : rq_cost_poisson g K lam r n == rq_cost_def g K lam r n.
 Proof. unfold rq_cost_poisson, rq_cost_def. rewrite acc_loop_sum. reflexivity. Qed.
